@@ -408,7 +408,7 @@ class Interp:
                 if op in ("Lt", "Le", "Eq"):
                     return False
             # a < x  and  b = x.saturating_sub(1) with x >= 1   =>   a <= b
-            if is_sym(b) and b.op == "sat_sub" and b.args[1] == 1 and is_sym(b.args[0]) and b.args[0].lo >= 1 and (id(a), id(b.args[0])) in rel:
+            if is_sym(b) and b.op in ("sat_sub", "sub") and len(b.args) == 2 and b.args[1] == 1 and is_sym(b.args[0]) and b.args[0].lo is not None and b.args[0].lo >= 1 and (id(a), id(b.args[0])) in rel:
                 if op == "Gt":
                     return False
                 if op == "Le":
@@ -693,6 +693,9 @@ class Interp:
         if "bytes" in v:
             b = Bytes([("lit", bytes(v["bytes"]))], is_str=("str" in v) or ty.endswith("str"))
             return Ref(Box_(b, "const"), ())
+        if "elems" in v:
+            from models import VecObj
+            return Ref(Box_(VecObj(list(v["elems"]), v.get("ety")), "const"), ())
         if "promoted" in v:
             return self.eval_promoted(fr, v["promoted"])
         if "zst" in v:
@@ -707,6 +710,12 @@ class Interp:
             m = re.fullmatch(r"Ty\((\w+), (\w+)/#\d+\)", str(v["opaque"]).strip())
             if m:
                 return self.const_param(fr, m.group(2), m.group(1))
+        if ("opaque" in v or "raw" in v or "ptr" in v) and c.get("named"):
+            # a named constant of the crate whose value the exporter could not flatten: evaluate its own (const) body
+            nm = c["named"]
+            key = nm if nm in self.prog.bodies else next((k for k in self.prog.bodies if k.endswith("::" + nm) or nm.endswith("::" + k)), None)
+            if key is not None and self.prog.bodies[key].get("kind") in ("const", "static") and self.prog.bodies[key]["arg_count"] == 0:
+                return self.call(key, [])
         if "opaque" in v or "raw" in v or "ptr" in v:
             return Opaque("const:" + ty, text=str(v)[:200])
         raise self.unanalysable("constant %r" % (c,))
@@ -870,6 +879,21 @@ class Interp:
         fr = Frame(key, body)
         fr.substs = dict(zip(body.get("generics") or [], substs or []))
         return self.exec_frame(fr, args)
+
+    def subst_ty(self, name):
+        """a type argument as written inside a generic body -> what the running call substituted for it (if known)"""
+        for _ in range(4):
+            fr = self.frames[-1] if self.frames else None
+            v = fr.substs.get(name) if fr is not None else None
+            if v is None and fr is not None:
+                for outer in reversed(self.frames):
+                    if outer is not fr and fr.key.startswith(outer.key + "::{closure") and name in outer.substs:
+                        v = outer.substs[name]
+                        break
+            if not isinstance(v, str) or v == name:
+                break
+            name = v
+        return name
 
     def const_param(self, fr, name, ty):
         """value of a const generic parameter of the running body: from the call's generic arguments, else from the
@@ -1053,4 +1077,19 @@ class Interp:
         m = self.models.lookup(f)
         if m is not None:
             return m(self, f, argv)
+        # a call on `Self` inside a provided trait method of a crate-local trait: with exactly one implementor the
+        # callee is that implementor's item (or the provided body when it does not override it)
+        if f.get("trait") and res.get("kind") in (None, "unresolved"):
+            impls = [i for i in self.prog.impls if i.get("trait") and (i["trait"] == f["trait"] or i["trait"].endswith("::" + f["trait"]) or f["trait"].endswith("::" + i["trait"]))]
+            if len(impls) == 1:
+                key = next((it["key"] for it in impls[0]["items"] if it.get("name") == f.get("name") or it["key"].endswith("::" + str(f.get("name")))), None)
+                if key is None and f.get("path") in self.prog.bodies:
+                    key = f["path"]
+                if key is not None and key in self.prog.bodies:
+                    m2 = self.models.local_override(key)
+                    if m2 is not None:
+                        return m2(self, f, argv)
+                    if key in self.stubs:
+                        return self.stubs[key](self, key, argv)
+                    return self.call(key, argv)
         raise self.unanalysable("unmodelled callee %s (resolved %s, kind %s)" % (f.get("path"), rpath, res.get("kind")))
